@@ -625,28 +625,43 @@ fn exec_insn(s: &mut RefState, st: &mut Step, insn: Insn, next: u32, own: u32, i
         }
         Insn::Bcc { cond, disp, wide } => {
             if cond_true(cond, s.ccr) {
-                s.pc = next.wrapping_add(disp as u32) & MASK24;
+                let t = next.wrapping_add(disp as u32);
+                if let Some(w) = bad_target(t) {
+                    st.outcome = Outcome::Unspecified(w);
+                    return Ok(());
+                }
+                s.pc = t & MASK24;
             }
             if wide {
                 st.cycles.push((N, 2, own));
             }
         }
-        Insn::Jmp(t) => match t {
-            JTarget::Reg(r) => s.pc = s.er[r as usize] & MASK24,
-            JTarget::Abs(a) => {
-                s.pc = a & MASK24;
-                st.cycles.push((N, 2, own));
+        Insn::Jmp(t) => {
+            match t {
+                JTarget::Reg(r) => s.pc = s.er[r as usize] & MASK24,
+                JTarget::Abs(a) => {
+                    s.pc = a & MASK24;
+                    st.cycles.push((N, 2, own));
+                }
+                JTarget::MemInd(aa) => {
+                    let v = s.read(st, aa as u32, 4, AccKind::Vector)?;
+                    s.pc = v & MASK24;
+                    st.cycles.push((J, 2, aa as u32));
+                    st.cycles.push((N, 2, own));
+                }
             }
-            JTarget::MemInd(aa) => {
-                let v = s.read(st, aa as u32, 4, AccKind::Vector)?;
-                s.pc = v & MASK24;
-                st.cycles.push((J, 2, aa as u32));
-                st.cycles.push((N, 2, own));
+            if s.pc & 1 != 0 {
+                st.outcome = Outcome::Unspecified("odd branch target");
             }
-        },
+        }
         Insn::Bsr { disp, wide } => {
+            let t = next.wrapping_add(disp as u32);
+            if let Some(w) = bad_target(t) {
+                st.outcome = Outcome::Unspecified(w);
+                return Ok(());
+            }
             let sp = push_long(s, st, next)?;
-            s.pc = next.wrapping_add(disp as u32) & MASK24;
+            s.pc = t & MASK24;
             st.cycles.push((K, 2, sp));
             if wide {
                 st.cycles.push((N, 2, own));
@@ -658,6 +673,10 @@ fn exec_insn(s: &mut RefState, st: &mut Step, insn: Insn, next: u32, own: u32, i
             match t {
                 JTarget::Reg(r) => {
                     let tgt = s.er[r as usize] & MASK24;
+                    if tgt & 1 != 0 {
+                        st.outcome = Outcome::Unspecified("odd branch target");
+                        return Ok(());
+                    }
                     if r == 7 {
                         st.outcome = Outcome::Unspecified("JSR @ER7");
                         return Ok(());
@@ -667,6 +686,10 @@ fn exec_insn(s: &mut RefState, st: &mut Step, insn: Insn, next: u32, own: u32, i
                     st.cycles.push((K, 2, sp));
                 }
                 JTarget::Abs(a) => {
+                    if a & 1 != 0 {
+                        st.outcome = Outcome::Unspecified("odd branch target");
+                        return Ok(());
+                    }
                     let sp = push_long(s, st, next)?;
                     s.pc = a & MASK24;
                     st.cycles.push((K, 2, sp));
@@ -680,6 +703,10 @@ fn exec_insn(s: &mut RefState, st: &mut Step, insn: Insn, next: u32, own: u32, i
                         return Ok(());
                     }
                     let v = s.read(st, aa as u32, 4, AccKind::Vector)?;
+                    if v & 1 != 0 {
+                        st.outcome = Outcome::Unspecified("odd branch target");
+                        return Ok(());
+                    }
                     let sp = push_long(s, st, next)?;
                     s.pc = v & MASK24;
                     st.cycles.push((J, 2, aa as u32));
@@ -692,6 +719,9 @@ fn exec_insn(s: &mut RefState, st: &mut Step, insn: Insn, next: u32, own: u32, i
             let v = s.read(st, sp, 4, AccKind::Stack)?;
             s.er[7] = s.er[7].wrapping_add(4);
             s.pc = v & MASK24;
+            if v & 1 != 0 {
+                st.outcome = Outcome::Unspecified("odd branch target");
+            }
             st.cycles.push((K, 2, sp));
             st.cycles.push((N, 2, own));
         }
@@ -701,6 +731,9 @@ fn exec_insn(s: &mut RefState, st: &mut Step, insn: Insn, next: u32, own: u32, i
             s.er[7] = s.er[7].wrapping_add(4);
             s.ccr = (v >> 24) as u8;
             s.pc = v & MASK24;
+            if v & 1 != 0 {
+                st.outcome = Outcome::Unspecified("odd branch target");
+            }
             st.cycles.push((K, 2, sp));
             st.cycles.push((N, 2, own));
         }
@@ -743,6 +776,18 @@ fn exec_insn(s: &mut RefState, st: &mut Step, insn: Insn, next: u32, own: u32, i
         }
     }
     Ok(())
+}
+
+/// PC-relative targets that are odd or leave the 24-bit address space are outside every property's
+/// quantifier (C05: even displacements between mapped code positions)
+fn bad_target(t: u32) -> Option<&'static str> {
+    if t & 1 != 0 {
+        Some("odd branch target")
+    } else if t > MASK24 {
+        Some("PC-relative target wraps around the address space")
+    } else {
+        None
+    }
 }
 
 fn overlaps(_sz: Sz, _r: u8) -> bool {
